@@ -96,7 +96,7 @@ func TestC02(t *testing.T) {
 
 func init() { evals["C03"] = evalC03 }
 
-var c03Sched = []string{"attach", "detach", "reattach", "pushonly"}
+var c03Sched = []string{"attach", "detach", "reattach", "pushonly", "round", "round"}
 
 // evalC03: the identical program with garbage collection on (client GC on
 // change pulls, server GC before snapshots) and off must never fail a sync or
